@@ -495,7 +495,7 @@ class ZorgFileCompiler(ZorgFileListener):
             )
             if any(
                 any(
-                    "::" in b.split()[0]
+                    "::" in (b.split() or [""])[0]
                     for b in bullet.split(l2_bullet_prefix)[1:]
                 )
                 for bullet in bullets
@@ -511,7 +511,7 @@ class ZorgFileCompiler(ZorgFileListener):
                 ]
             if any(
                 any(
-                    "::" in b.split()[0]
+                    "::" in (b.split() or [""])[0]
                     for b in bullet.split(l3_bullet_prefix)[1:]
                 )
                 for bullet in bullets
@@ -530,10 +530,13 @@ class ZorgFileCompiler(ZorgFileListener):
 
             for bullet in bullets:
                 words = bullet.split()
-                if zdt.is_short_date_spec(words[0]):
+                if words and zdt.is_short_date_spec(words[0]):
                     words.pop(0)
-                if zdt.is_zid(words[0]):
+                if words and zdt.is_zid(words[0]):
                     words.pop(0)
+                if not words:
+                    # e.g. an empty bullet or a bullet that only holds a date
+                    continue
                 first_word = words.pop(0)
                 if first_word.endswith("::"):
                     key = first_word[:-2]
